@@ -161,7 +161,20 @@ fn seq_is_empty_somewhere(seq: &Seq) -> bool {
 
 /// A (sub-)expression that consists solely of a tree wildcard matches everything by a documented
 /// special case; transformations that create one are not comparable.
+/// Two zero-or-more wildcards that became neighbours would be re-read as a tree wildcard.
+fn adjacent_zoms(seq: &Seq) -> bool {
+    seq.toks.windows(2).any(|w| matches!(w[0].node, Node::Zom { .. }) && matches!(w[1].node, Node::Zom { .. }))
+        || seq.toks.iter().any(|t| match &t.node {
+            Node::Alt(bs) => bs.iter().any(adjacent_zoms),
+            Node::Rep { body, .. } => adjacent_zoms(body),
+            _ => false,
+        })
+}
+
 fn lone_tree(seq: &Seq) -> bool {
+    if adjacent_zoms(seq) {
+        return true;
+    }
     if seq.toks.len() == 1 && matches!(seq.toks[0].node, Node::Tree { .. }) {
         return true;
     }
@@ -207,11 +220,18 @@ pub fn families(ast: &Ast) -> Vec<Family> {
         match &t.node {
             Node::Alt(bs) => {
                 let mut parts = Vec::new();
+                let mut valid = true;
                 for b in bs {
                     let s = replace_in_seq(&ast.seq, t.id, &b.toks);
+                    if lone_tree(&s) {
+                        valid = false;
+                    }
                     let mut e = String::new();
                     unparse_seq(&s, explicit, &mut e);
                     parts.push(e);
+                }
+                if !valid {
+                    continue;
                 }
                 out.push(Family {
                     kind: "alternation-is-union",
